@@ -35,34 +35,60 @@ open Arc.Generated.C09
 def DedupSpec (d : Nat → List Row → List Row) : Prop :=
   ∀ L rows, MLe (d L rows) rows ∧ Covers L (d L rows) rows ∧ ((d L rows).map (keyAt L)).Nodup
 
-theorem jobLevel_cases (L : Nat) (fs : List File) (h : ∀ f ∈ fs, f.level = 0 ∨ f.level = L) :
-    jobLevel fs = 0 ∨ jobLevel fs = L := by
+theorem joinLevel_uniform (L a b : Nat) (ha : a = 0 ∨ a = L) (hb : b = 0 ∨ b = L) :
+    joinLevel a b = 0 ∨ joinLevel a b = L := by
+  rcases ha with ha | ha <;> rcases hb with hb | hb <;> rw [ha, hb]
+  · left; simp [joinLevel]
+  · right; simp [joinLevel]
+  · by_cases h : L = 0
+    · left; simp [joinLevel, h]
+    · right; simp [joinLevel, h]
+  · by_cases h : L = 0
+    · left; simp [joinLevel, h]
+    · right; simp [joinLevel, h]
+
+theorem jobLevel_cases (cfg : Cfg) (L : Nat) (fs : List File) (h : ∀ f ∈ fs, f.level = 0 ∨ f.level = L) :
+    jobLevel cfg fs = 0 ∨ jobLevel cfg fs = L := by
   have key : ∀ (fs : List File) (acc : Nat), (∀ f ∈ fs, f.level = 0 ∨ f.level = L) → (acc = 0 ∨ acc = L) →
-      (fs.foldl (fun acc f => max acc f.level) acc = 0 ∨ fs.foldl (fun acc f => max acc f.level) acc = L) := by
+      (fs.foldl (fun acc f => joinLevel acc f.level) acc = 0 ∨ fs.foldl (fun acc f => joinLevel acc f.level) acc = L) := by
     intro fs
     induction fs with
     | nil => intro acc _ ha; exact ha
     | cons f fs ih =>
       intro acc hf ha
       simp only [List.foldl]
-      apply ih _ (fun g hg => hf g (List.mem_cons_of_mem _ hg))
-      rcases ha with ha | ha <;> rcases hf f List.mem_cons_self with hl | hl <;> simp [ha, hl]
-  exact key fs 0 h (Or.inl rfl)
+      exact ih _ (fun g hg => hf g (List.mem_cons_of_mem _ hg)) (joinLevel_uniform L _ _ ha (hf f List.mem_cons_self))
+  simp only [jobLevel]
+  by_cases hu : cfg.tagUnion = true
+  · simp only [hu, if_true]; exact key fs 0 h (Or.inl rfl)
+  · simp only [hu, Bool.false_eq_true, if_false]
+    cases hfind : fs.find? (fun f => decide (f.level ≥ 2)) with
+    | some f => exact h f (List.mem_of_find?_eq_some hfind)
+    | none =>
+      simp only
+      by_cases hany : fs.any (fun f => f.level == 1) = true
+      · simp only [hany, if_true]
+        obtain ⟨f, hf, h1⟩ := List.any_eq_true.mp hany
+        have h1' : f.level = 1 := by simpa using h1
+        rcases h f hf with h0 | hL
+        · rw [h0] at h1'; cases h1'
+        · exact Or.inr (h1'.symm.trans hL)
+      · simp [hany]
 
 theorem compactOk_coll (L : Nat) (cfg : Cfg) (hd : DedupSpec cfg.dedupFn) : CompactOk (collRel L) cfg := by
   intro fs hok
   simp only [compactRows]
-  by_cases hz : (jobLevel fs == 0) = true
+  by_cases hz : (jobLevel cfg fs == 0) = true
   · simp only [hz, if_true]; exact Coll.of_meq (MEq.refl _)
   · simp only [hz, Bool.false_eq_true, if_false]
-    rcases jobLevel_cases L fs hok with h | h
+    rcases jobLevel_cases cfg L fs hok with h | h
     · simp [h] at hz
     · rw [h]; exact ⟨(hd L _).1, (hd L _).2.1⟩
 
 theorem compactOk_meq (cfg : Cfg) : CompactOk meqRel cfg := by
   intro fs hok
-  have : jobLevel fs = 0 := by
-    rcases jobLevel_cases 0 fs (fun f hf => Or.inl (hok f hf)) with h | h <;> exact h
+  have : jobLevel cfg fs = 0 := by
+    rcases jobLevel_cases cfg 0 fs (fun f hf => Or.inl (hok f hf)) with h | h <;> exact h
   simp [compactRows, this]; exact MEq.refl _
 
 /-! ## regenerated facts the proofs consume (a source edit re-checks them) -/
@@ -266,7 +292,7 @@ theorem C09_full (a b : Nat) (d : Nat → List Row → List Row) (hd : DedupSpec
 
 /-! ### witnesses -/
 
-def wrow (i : Nat) : Row := { rid := i, k1 := i, k2 := i, k3 := i }
+def wrow (i : Nat) : Row := { rid := i, k1 := i, k2 := i, k3 := i, k4 := i }
 def wfile (i : Nat) : Path × File := (i, { rows := [wrow i], level := 0, isOut := false, complete := true })
 /-- four one-row files without dedup metadata -/
 def wfiles : Files := [wfile 0, wfile 1, wfile 2, wfile 3]
@@ -284,17 +310,80 @@ theorem C09_full_witness :
 
 /-- a legacy file (no metadata) whose two rows differ only in `region`, next to a file tagged `host` -/
 def lfiles : Files :=
-  [(0, { rows := [{ rid := 0, k1 := 0, k2 := 0, k3 := 0 }, { rid := 1, k1 := 0, k2 := 0, k3 := 1 }],
+  [(0, { rows := [{ rid := 0, k1 := 0, k2 := 0, k3 := 0, k4 := 0 }, { rid := 1, k1 := 0, k2 := 0, k3 := 1, k4 := 1 }],
          level := 0, isOut := false, complete := true }),
-   (1, { rows := [{ rid := 2, k1 := 1, k2 := 1, k3 := 2 }], level := 2, isOut := false, complete := true })]
+   (1, { rows := [{ rid := 2, k1 := 1, k2 := 1, k3 := 2, k4 := 2 }], level := 2, isOut := false, complete := true })]
 
 /-- Known finding (loss, no fault needed): the job dedups at the union level `host` although one input
 declares no tags (and compaction outputs never do): rows differing in an undeclared tag collapse. -/
 theorem C09_level_witness :
-    (visible (cycle (genCfg 2 30 dedupFirst) [] [] (initSt lfiles)).st).count { rid := 1, k1 := 0, k2 := 0, k3 := 1 } = 0 ∧
-    (rowsOf lfiles).count { rid := 1, k1 := 0, k2 := 0, k3 := 1 } = 1 ∧
+    (visible (cycle (genCfg 2 30 dedupFirst) [] [] (initSt lfiles)).st).count { rid := 1, k1 := 0, k2 := 0, k3 := 1, k4 := 1 } = 0 ∧
+    (rowsOf lfiles).count { rid := 1, k1 := 0, k2 := 0, k3 := 1, k4 := 1 } = 1 ∧
     ((visible (cycle (genCfg 2 30 dedupFirst) [] [] (initSt lfiles)).st).filter (fun r => r.k3 == 1)).length = 0 := by
   decide
+
+/-! ## the dedup key is the union of the declared tags -/
+
+/-- keys are nested like the tag sets they are built from: equal on a finer key ⇒ equal on a coarser one
+(a fact about how the harness abstracts rows; hypothesis of `C09_dedup_union`) -/
+def KeyMono (rows : List Row) : Prop :=
+  ∀ a b, levelLe a b → a ≠ 0 → ∀ r ∈ rows, ∀ r' ∈ rows, keyAt b r' = keyAt b r → keyAt a r' = keyAt a r
+
+theorem join_facts : ∀ a, a < 5 → ∀ b, b < 5 →
+    joinLevel a b < 5 ∧ levelLe a (joinLevel a b) ∧ levelLe b (joinLevel a b) := by decide
+theorem levelLe_trans5 : ∀ a, a < 5 → ∀ b, b < 5 → ∀ c, c < 5 → levelLe a b → levelLe b c → levelLe a c := by decide
+theorem levelLe_refl5 : ∀ a, a < 5 → levelLe a a := by decide
+
+/-- valid level codes -/
+def LevelsOk (fs : List File) : Prop := ∀ f ∈ fs, f.level < 5
+
+/-- With the regenerated fact `dedupKeyIsUnionOfInputTags = true` the job's dedup level contains the
+tag set of EVERY input. -/
+theorem C09_dedup_key_is_union (a b : Nat) (d : Nat → List Row → List Row) (fs : List File) (hok : LevelsOk fs) :
+    ∀ f ∈ fs, levelLe f.level (jobLevel (genCfg a b d) fs) := by
+  have hu : (genCfg a b d).tagUnion = true := rfl
+  simp only [jobLevel, hu, if_true, unionLevel]
+  have key : ∀ (fs : List File) (acc : Nat), acc < 5 → (∀ f ∈ fs, f.level < 5) →
+      levelLe acc (fs.foldl (fun acc f => joinLevel acc f.level) acc) ∧
+      (fs.foldl (fun acc f => joinLevel acc f.level) acc) < 5 ∧
+      ∀ f ∈ fs, levelLe f.level (fs.foldl (fun acc f => joinLevel acc f.level) acc) := by
+    intro fs
+    induction fs with
+    | nil => intro acc hacc _; exact ⟨levelLe_refl5 acc hacc, hacc, fun f hf => by cases hf⟩
+    | cons g fs ih =>
+      intro acc hacc hfs
+      have hg := hfs g List.mem_cons_self
+      obtain ⟨hj, hl, hr⟩ := join_facts acc hacc g.level hg
+      obtain ⟨h1, h2, h3⟩ := ih (joinLevel acc g.level) hj (fun f hf => hfs f (List.mem_cons_of_mem _ hf))
+      simp only [List.foldl]
+      refine ⟨levelLe_trans5 _ hacc _ hj _ h2 hl h1, h2, ?_⟩
+      intro f hf
+      rcases List.mem_cons.mp hf with e | e
+      · subst e; exact levelLe_trans5 _ hg _ hj _ h2 hr h1
+      · exact h3 f e
+  exact (key fs 0 (by decide) hok).2.2
+
+/-- Consequence for rows (consumes the same fact): every row of every input that declares tags keeps,
+in the job's output, a row with the same (tags,time) at the input's OWN level — no row of a tagged
+file is collapsed under a key coarser than the one its file declares. (For inputs WITHOUT tags this
+is false: `C09_level_witness`.) -/
+theorem C09_dedup_union (a b : Nat) (d : Nat → List Row → List Row) (hd : DedupSpec d) (fs : List File)
+    (hok : LevelsOk fs) (hmono : KeyMono (fs.flatMap (fun f => f.rows))) :
+    ∀ f ∈ fs, f.level ≠ 0 → Covers f.level (compactRows (genCfg a b d) fs) f.rows := by
+  intro f hf hne r hr
+  have hle := C09_dedup_key_is_union a b d fs hok f hf
+  have hmem : r ∈ fs.flatMap (fun f => f.rows) := List.mem_flatMap.mpr ⟨f, hf, hr⟩
+  simp only [compactRows]
+  by_cases hz : (jobLevel (genCfg a b d) fs == 0) = true
+  · simp only [hz, if_true]; exact ⟨r, hmem, rfl⟩
+  · simp only [hz, Bool.false_eq_true, if_false]
+    obtain ⟨r', h1, h2⟩ := (hd (jobLevel (genCfg a b d) fs) _).2.1 r hmem
+    have hsub := (hd (jobLevel (genCfg a b d) fs) (fs.flatMap (fun f => f.rows))).1 r'
+    have hr' : r' ∈ fs.flatMap (fun f => f.rows) := by
+      have : 0 < List.count r' ((genCfg a b d).dedupFn (jobLevel (genCfg a b d) fs) (fs.flatMap fun f => f.rows)) :=
+        List.count_pos_iff.mpr h1
+      exact List.count_pos_iff.mp (Nat.lt_of_lt_of_le this hsub)
+    exact ⟨r', h1, hmono _ _ hle hne r hmem r' hr' h2⟩
 
 /-! ## C09_batches -/
 
